@@ -39,6 +39,17 @@ def PE.keySorted : PE → Bool
   | .key k => FieldList.equals (FieldList.sort k) k
   | _ => true
 
+/-- the element lies in the domain on which the concrete codec is exact: a list index fits Go's 64-bit
+`int` (`DeserializePathElement` reads it with `strconv.Atoi`, which rejects anything else); every int
+inside the fields of a key or inside a value is exactly a float64, and every map there has strictly
+ascending keys (`Value.inGoDomain`: the reader turns every JSON number into a float64 and every JSON
+object into a Go map) -/
+def PE.inGoDomain : PE → Bool
+  | .key k => Value.inGoDomainFields k
+  | .value v => v.inGoDomain
+  | .index i => decide (-(2 ^ 63 : Int) ≤ i) && decide (i < (2 ^ 63 : Int))
+  | _ => true
+
 namespace SetTrie
 mutual
 /-- every member and every child element of the trie, recursively, satisfies `p` -/
@@ -53,6 +64,8 @@ end
 def allPrintable (s : SetTrie) : Bool := allPE PE.printable s
 /-- every associative-list key of the trie has its fields in sorted order -/
 def allKeysSorted (s : SetTrie) : Bool := allPE PE.keySorted s
+/-- every path element of the trie lies in the domain on which the concrete codec is exact -/
+def allInGoDomain (s : SetTrie) : Bool := allPE PE.inGoDomain s
 end SetTrie
 
 namespace Ser
@@ -106,11 +119,29 @@ theorem jsonFields_isSome_of_noFloat : ∀ m : List (String × Value), Value.noF
     · intro h'; cases h'
 end
 
+theorem jsonKeyFields_isSome_of_noFloat : ∀ m : List (String × Value), Value.noFloatFields m = true →
+    (jsonKeyFields m).isSome = true
+  | [], _ => by simp [jsonKeyFields]
+  | [(k, v)], h => by
+    simp only [Value.noFloatFields, Bool.and_true] at h
+    rw [jsonKeyFields]; simp [jsonValue_isSome_of_noFloat v h]
+  | (k, v) :: e :: m, h => by
+    obtain ⟨k', w⟩ := e
+    simp only [Value.noFloatFields, Bool.and_eq_true] at h
+    have h1 := jsonValue_isSome_of_noFloat v h.1
+    have h2 := jsonKeyFields_isSome_of_noFloat ((k', w) :: m) (by simp [Value.noFloatFields, h.2])
+    rw [jsonKeyFields]
+    · rw [Option.isSome_iff_exists] at h1 h2
+      obtain ⟨a, ha⟩ := h1
+      obtain ⟨b, hb⟩ := h2
+      simp [ha, hb]
+    · intro h'; cases h'
+
 theorem serializePE_isSome_of_noFloat (pe : PE) (h : pe.noFloat = true) (hi : pe ≠ .invalid) :
     (serializePE pe).isSome = true := by
   cases pe with
   | field n => rfl
-  | key k => simp [serializePE, jsonFields_isSome_of_noFloat k h]
+  | key k => simp [serializePE, jsonKeyFields_isSome_of_noFloat k h]
   | value v => simp [serializePE, jsonValue_isSome_of_noFloat v h]
   | index i => rfl
   | invalid => exact absurd rfl hi
@@ -142,13 +173,13 @@ theorem serializePE_ne_dot (pe : PE) : serializePE pe ≠ some "." := by
 
 /-! ### `FieldList.sort` respects field-wise equality -/
 
-theorem equalsFields_insertField {e e' : String × Value} (h1 : e.1 = e'.1) (h2 : Value.equals e.2 e'.2 = true) :
+theorem equalsFields_insertFieldFirst {e e' : String × Value} (h1 : e.1 = e'.1) (h2 : Value.equals e.2 e'.2 = true) :
     ∀ a b : List (String × Value), Value.equalsFields a b = true →
-      Value.equalsFields (insertField e a) (insertField e' b) = true
+      Value.equalsFields (insertFieldFirst e a) (insertFieldFirst e' b) = true
   | [], [], _ => by
     obtain ⟨k, v⟩ := e; obtain ⟨k', v'⟩ := e'
     simp only at h1 h2
-    simp [insertField, Value.equalsFields, h1, h2]
+    simp [insertFieldFirst, Value.equalsFields, h1, h2]
   | [], _ :: _, h => by simp [Value.equalsFields] at h
   | _ :: _, [], h => by simp [Value.equalsFields] at h
   | (k, v) :: as, (k', v') :: bs, h => by
@@ -158,11 +189,11 @@ theorem equalsFields_insertField {e e' : String × Value} (h1 : e.1 = e'.1) (h2 
     simp only [Value.equalsFields, Bool.and_eq_true, beq_iff_eq] at h
     obtain ⟨⟨hk, hv⟩, hr⟩ := h
     subst hk
-    simp only [insertField]
+    simp only [insertFieldFirst]
     split
-    · simp [Value.equalsFields, h2, hv, hr]
-    · have := equalsFields_insertField (e := (ke, ve)) (e' := (ke, ve')) rfl h2 as bs hr
+    · have := equalsFields_insertFieldFirst (e := (ke, ve)) (e' := (ke, ve')) rfl h2 as bs hr
       simp [Value.equalsFields, hv, this]
+    · simp [Value.equalsFields, h2, hv, hr]
 
 theorem equalsFields_sort : ∀ a b : List (String × Value), Value.equalsFields a b = true →
     Value.equalsFields (FieldList.sort a) (FieldList.sort b) = true
@@ -174,23 +205,28 @@ theorem equalsFields_sort : ∀ a b : List (String × Value), Value.equalsFields
     obtain ⟨⟨hk, hv⟩, hr⟩ := h
     have ih := equalsFields_sort as bs hr
     simp only [FieldList.sort, List.foldr_cons] at ih ⊢
-    exact equalsFields_insertField hk hv _ _ ih
+    exact equalsFields_insertFieldFirst hk hv _ _ ih
 
 theorem equalsFields_trans {a b c : List (String × Value)} (h1 : Value.equalsFields a b = true)
     (h2 : Value.equalsFields b c = true) : Value.equalsFields a c = true := by
   rw [← Value.compareFields_eq_iff] at h1 h2 ⊢
   exact (Value.compareFields_tr a b c).2.2 h1 h2
 
-theorem sort_eq_self_of_ascending : ∀ m : List (String × Value), m.Pairwise (fun a b => a.1 < b.1) →
+/-- the sort is stable: a list whose names are already in non-descending order is left alone -/
+theorem sort_eq_self_of_nondescending : ∀ m : List (String × Value), m.Pairwise (fun a b => ¬ b.1 < a.1) →
     FieldList.sort m = m
   | [], _ => rfl
   | [x], _ => rfl
   | x :: y :: ys, h => by
     rw [List.pairwise_cons] at h
-    have ih := sort_eq_self_of_ascending (y :: ys) h.2
+    have ih := sort_eq_self_of_nondescending (y :: ys) h.2
     simp only [FieldList.sort, List.foldr_cons] at ih ⊢
     rw [ih]
-    simp [insertField, h.1 y (by simp)]
+    simp [insertFieldFirst, h.1 y (by simp)]
+
+theorem sort_eq_self_of_ascending (m : List (String × Value)) (h : m.Pairwise (fun a b => a.1 < b.1)) :
+    FieldList.sort m = m :=
+  sort_eq_self_of_nondescending m (h.imp fun hab hba => String.lt_irrefl _ (String.lt_trans hab hba))
 
 /-- strictly ascending field names are in sorted order -/
 theorem keySorted_of_ascending (k : FieldList) (h : k.Pairwise (fun a b => a.1 < b.1)) :
@@ -200,7 +236,8 @@ theorem keySorted_of_ascending (k : FieldList) (h : k.Pairwise (fun a b => a.1 <
 
 /-! ### reading a printed path element -/
 
-theorem atoi_toString (i : Int) : atoi (toString i).toList = some i := by
+theorem atoi_toString (i : Int) (hlo : -(2 ^ 63 : Int) ≤ i) (hhi : i < (2 ^ 63 : Int)) :
+    atoi (toString i).toList = some i := by
   rw [toString_int_toList]
   have hd := toDigits_isDigit i.natAbs
   have hall : (Nat.toDigits 10 i.natAbs).all Char.isDigit = true := List.all_eq_true.2 hd
@@ -209,7 +246,8 @@ theorem atoi_toString (i : Int) : atoi (toString i).toList = some i := by
     | nil => exact absurd h Nat.toDigits_ne_nil
     | cons _ _ => rfl
   by_cases hneg : i < 0
-  · simp only [hneg, if_true, List.cons_append, List.nil_append, atoi, hne, hall, digitsToNat_toDigits]
+  · have hv : -((i.natAbs : Nat) : Int) = i := by omega
+    simp only [hneg, if_true, List.cons_append, List.nil_append, atoi, hne, hall, digitsToNat_toDigits, hv]
     simp
     omega
   · simp only [hneg, if_false, List.nil_append]
@@ -221,65 +259,169 @@ theorem atoi_toString (i : Int) : atoi (toString i).toList = some i := by
       have h2 : c ≠ '+' := by intro e; subst e; simp at hc
       rw [h] at hall hne
       have hdn : digitsToNat (c :: t) = i.natAbs := by rw [← h]; exact digitsToNat_toDigits _
+      have hv : ((i.natAbs : Nat) : Int) = i := by omega
       unfold atoi
       simp only []
       split
       · rename_i heq; cases heq; exact absurd rfl h1
       · rename_i heq; cases heq; exact absurd rfl h2
-      · simp only [hne, hall, hdn]
+      · simp only [hne, hall, hdn, hv]
         simp
         omega
 
-theorem std_roundtrip_field (n : String) : deserializePE ("f:" ++ n) = .ok (.field n) := by
-  have : ("f:" ++ n).toList = 'f' :: ':' :: n.toList := by simp [String.toList_append]
-  unfold deserializePE
-  rw [this]
+/-! ### the header of a key is inspected by byte -/
+
+theorem utf8Bytes_eq (s : String) : utf8Bytes s = s.toList.flatMap String.utf8EncodeChar := by
+  rw [utf8Bytes, String.toUTF8_eq_toByteArray, ← String.utf8Encode_toList, List.utf8Encode]
   simp
 
-theorem std_roundtrip_index (i : Int) : deserializePE ("i:" ++ toString i) = .ok (.index i) := by
-  have : ("i:" ++ toString i).toList = 'i' :: ':' :: (toString i).toList := by simp [String.toList_append]
-  unfold deserializePE
-  rw [this]
-  simp [-Int.toString_eq_repr, atoi_toString]
+/-- a key that starts with a one-byte character followed by `:` -/
+theorem deserializePE_ascii (s : String) (c : Char) (p : List Char) (h : s.toList = c :: ':' :: p)
+    (hc : c.utf8Size = 1) : deserializePE s = deserializeTyped c.toUInt8 p := by
+  have h1 : String.utf8EncodeChar ':' = [58] := by decide
+  simp [deserializePE, utf8Bytes_eq, h, String.utf8EncodeChar_eq_singleton hc, h1]
 
-theorem std_roundtrip_value (v : Value) (s : String) (h : jsonValue v = some s) :
+theorem cont_ne_colon (a : Nat) : (a &&& 63 ||| 128) ≠ 58 := by
+  intro h
+  have := congrArg (fun n => Nat.testBit n 7) h
+  have h1 : Nat.testBit 128 7 = true := by decide
+  have h2 : Nat.testBit 58 7 = false := by decide
+  simp [Nat.testBit_or, h1, h2] at this
+
+/-- a key whose first character takes more than one byte is the ordinary error, whatever follows -/
+theorem deserializePE_multibyte (s : String) (c : Char) (p : List Char) (h : s.toList = c :: p)
+    (hc : c.utf8Size ≠ 1) : deserializePE s = .error .bad := by
+  have hpos := c.utf8Size_pos
+  have hle := c.utf8Size_le_four
+  have hlen := String.length_utf8EncodeChar c
+  have hcont : ∀ b x rest, String.utf8EncodeChar c = b :: x :: rest → x ≠ 58 := by
+    intro b x rest he
+    have h2 : c.utf8Size = 2 ∨ c.utf8Size = 3 ∨ c.utf8Size = 4 := by omega
+    rcases h2 with h2 | h2 | h2
+    · have := String.utf8EncodeChar_eq_cons_cons h2
+      rw [this] at he
+      simp only [List.cons.injEq] at he
+      rw [← he.2.1]
+      intro hx
+      have := congrArg UInt8.toNat hx
+      simp at this
+      exact cont_ne_colon _ this
+    · have := String.utf8EncodeChar_eq_cons_cons_cons h2
+      rw [this] at he
+      simp only [List.cons.injEq] at he
+      rw [← he.2.1]
+      intro hx
+      have := congrArg UInt8.toNat hx
+      simp at this
+      exact cont_ne_colon _ this
+    · have := String.utf8EncodeChar_eq_cons_cons_cons_cons h2
+      rw [this] at he
+      simp only [List.cons.injEq] at he
+      rw [← he.2.1]
+      intro hx
+      have := congrArg UInt8.toNat hx
+      simp at this
+      exact cont_ne_colon _ this
+  cases he : String.utf8EncodeChar c with
+  | nil => rw [he] at hlen; simp at hlen; omega
+  | cons b l =>
+    cases l with
+    | nil => rw [he] at hlen; simp at hlen; omega
+    | cons x rest =>
+      have := hcont b x rest he
+      simp [deserializePE, utf8Bytes_eq, h, he, this]
+
+theorem std_roundtrip_field (n : String) : deserializePE ("f:" ++ n) = .ok (.field n) := by
+  have : ("f:" ++ n).toList = 'f' :: ':' :: n.toList := by simp [String.toList_append]
+  rw [deserializePE_ascii _ 'f' _ this (by decide)]
+  have hi : ('f' : Char).toUInt8 = 102 := by decide
+  simp [deserializeTyped, hi]
+
+theorem std_roundtrip_index (i : Int) (hlo : -(2 ^ 63 : Int) ≤ i) (hhi : i < (2 ^ 63 : Int)) :
+    deserializePE ("i:" ++ toString i) = .ok (.index i) := by
+  have : ("i:" ++ toString i).toList = 'i' :: ':' :: (toString i).toList := by simp [String.toList_append]
+  rw [deserializePE_ascii _ 'i' _ this (by decide)]
+  have hi : ('i' : Char).toUInt8 = 105 := by decide
+  simp [-Int.toString_eq_repr, deserializeTyped, hi, atoi_toString i hlo hhi]
+
+/-- an int that is not a float64 is printed, but reading it back would need rounding -/
+def isUnsupported (r : Except ReadErr PE) : Bool := match r with | .error .unsupported => true | _ => false
+
+theorem eq_unsupported_of {r : Except ReadErr PE} (h : isUnsupported r = true) : r = .error .unsupported := by
+  unfold isUnsupported at h
+  split at h
+  · rfl
+  · cases h
+
+theorem deserializePE_value_big : deserializePE "v:9007199254740993" = .error .unsupported :=
+  eq_unsupported_of (by decide +kernel)
+theorem deserializePE_key_big : deserializePE "k:{\"a\":9007199254740993}" = .error .unsupported :=
+  eq_unsupported_of (by decide +kernel)
+
+/-- a map whose keys are not in ascending order is printed as it stands and read back sorted -/
+def isValueMapOfTwoNulls (a b : String) (r : Except ReadErr PE) : Bool :=
+  match r with
+  | .ok (.value (.map [(a', .null), (b', .null)])) => a' == a && b' == b
+  | _ => false
+
+theorem eq_of_isValueMapOfTwoNulls {a b : String} {r : Except ReadErr PE}
+    (h : isValueMapOfTwoNulls a b r = true) : r = .ok (.value (.map [(a, .null), (b, .null)])) := by
+  unfold isValueMapOfTwoNulls at h
+  split at h
+  · simp only [Bool.and_eq_true, beq_iff_eq] at h
+    rw [h.1, h.2]
+  · cases h
+
+theorem deserializePE_value_unsorted :
+    deserializePE "v:{\"b\":null,\"a\":null}" = .ok (.value (.map [("a", .null), ("b", .null)])) :=
+  eq_of_isValueMapOfTwoNulls (by decide +kernel)
+
+/-- an index outside Go's `int` is printed but not read back -/
+theorem deserializePE_index_big : deserializePE "i:9223372036854775808" = .error .bad := by rfl
+
+theorem std_roundtrip_value (v : Value) (s : String) (h : jsonValue v = some s) (hdom : v.inGoDomain = true) :
     ∃ v', deserializePE ("v:" ++ s) = .ok (.value v') ∧ Value.equals v' v = true := by
   have e : ("v:" ++ s).toList = 'v' :: ':' :: s.toList := by simp [String.toList_append]
-  obtain ⟨v', hv', heq⟩ := readValue_jsonValue v s h (s.toList.length + 2) [] (by omega) term_nil
+  obtain ⟨v', hv', heq⟩ := readValue_jsonValue v s h hdom (s.toList.length + 2) [] (by omega) term_nil
   rw [List.append_nil] at hv'
   refine ⟨v', ?_, heq⟩
-  unfold deserializePE
-  rw [e]
-  simp [hv']
+  rw [deserializePE_ascii _ 'v' _ e (by decide)]
+  have hi : ('v' : Char).toUInt8 = 118 := by decide
+  simp [deserializeTyped, hi, hv']
 
 
 /-- what `deserializePE` returns on a printed associative-list key: the fields read back, sorted -/
-theorem deserializePE_key (k : FieldList) (s : String) (h : jsonFields k = some s) :
+theorem deserializePE_key (k : FieldList) (s : String) (h : jsonKeyFields k = some s)
+    (hdom : Value.inGoDomainFields k = true) :
     ∃ m, deserializePE ("k:{" ++ s ++ "}") = .ok (.key (FieldList.sort m)) ∧ Value.equalsFields m k = true := by
-  have e : ("k:{" ++ s ++ "}").toList = 'k' :: ':' :: ("{" ++ s ++ "}").toList := by
+  have e : ("k:{" ++ s ++ "}").toList = 'k' :: ':' :: '{' :: (s.toList ++ ['}']) := by
     simp [String.toList_append]
-  have hj : jsonValue (.map k) = some ("{" ++ s ++ "}") := by simp [jsonValue, h]
-  obtain ⟨v', hv', heq⟩ := readValue_jsonValue (.map k) _ hj (("{" ++ s ++ "}").toList.length + 2) []
-    (by omega) term_nil
-  rw [List.append_nil] at hv'
-  have hstart : ("{" ++ s ++ "}").toList = '{' :: (s ++ "}").toList := by simp [String.toList_append]
-  cases v' with
-  | map m =>
-    simp only [Value.equals] at heq
+  have hi : ('k' : Char).toUInt8 = 107 := by decide
+  rw [deserializePE_ascii _ 'k' _ e (by decide)]
+  cases k with
+  | nil =>
+    rw [jsonKeyFields] at h
+    cases h
+    exact ⟨[], by simp [deserializeTyped, hi, skipWs, FieldList.sort], by simp [Value.equalsFields]⟩
+  | cons kv k =>
+    obtain ⟨k0, v0⟩ := kv
+    obtain ⟨t, ec⟩ := jsonKeyFields_start k0 v0 k s h
+    obtain ⟨m, hm, heq⟩ := readObjMembers_jsonKeyFields ((k0, v0) :: k) s (by simp) h hdom
+      (('{' :: (s.toList ++ ['}'])).length + 1) [] [] (by simp)
     refine ⟨m, ?_, heq⟩
-    unfold deserializePE
-    rw [e]
-    simp only [hv']
-    rw [hstart]
+    simp only [List.reverse_nil, List.nil_append] at hm
+    have hsk : skipWs ('{' :: (s.toList ++ ['}'])) = '{' :: (s.toList ++ ['}']) := rfl
+    simp only [deserializeTyped, hi, hsk, hm]
+    rw [ec]
     simp [skipWs]
-  | _ => simp [Value.equals] at heq
 
 /-- reading a printed associative-list key yields an equivalent element exactly when the key's fields are
 in sorted order -/
-theorem std_roundtrip_key_iff (k : FieldList) (s : String) (h : jsonFields k = some s) :
+theorem std_roundtrip_key_iff (k : FieldList) (s : String) (h : jsonKeyFields k = some s)
+    (hdom : Value.inGoDomainFields k = true) :
     (∃ pe', deserializePE ("k:{" ++ s ++ "}") = .ok pe' ∧ PE.equals pe' (.key k) = true) ↔
       FieldList.equals (FieldList.sort k) k = true := by
-  obtain ⟨m, hm, heq⟩ := deserializePE_key k s h
+  obtain ⟨m, hm, heq⟩ := deserializePE_key k s h hdom
   have hs := equalsFields_sort m k heq
   constructor
   · rintro ⟨pe', hd, he⟩
@@ -296,7 +438,7 @@ theorem std_roundtrip_key_iff (k : FieldList) (s : String) (h : jsonFields k = s
 
 /-- reading a printed key yields an equivalent path element, for elements whose key fields are sorted -/
 theorem std_roundtrip_of_keySorted (pe : PE) (s : String) (h : serializePE pe = some s)
-    (hk : pe.keySorted = true) :
+    (hk : pe.keySorted = true) (hd : pe.inGoDomain = true) :
     ∃ pe', deserializePE s = .ok pe' ∧ PE.equals pe' pe = true := by
   cases pe with
   | field n =>
@@ -305,23 +447,25 @@ theorem std_roundtrip_of_keySorted (pe : PE) (s : String) (h : serializePE pe = 
   | key k =>
     simp only [serializePE, Option.map_eq_some_iff] at h
     obtain ⟨a, ha, rfl⟩ := h
-    exact (std_roundtrip_key_iff k a ha).2 hk
+    exact (std_roundtrip_key_iff k a ha hd).2 hk
   | value v =>
     simp only [serializePE, Option.map_eq_some_iff] at h
     obtain ⟨a, ha, rfl⟩ := h
-    obtain ⟨v', hv', heq⟩ := std_roundtrip_value v a ha
+    obtain ⟨v', hv', heq⟩ := std_roundtrip_value v a ha hd
     exact ⟨_, hv', by simpa [PE.equals] using heq⟩
   | index i =>
     simp only [serializePE, Option.some.injEq] at h; subst h
-    exact ⟨_, std_roundtrip_index i, by simp [PE.equals]⟩
+    simp only [PE.inGoDomain, Bool.and_eq_true, decide_eq_true_eq] at hd
+    exact ⟨_, std_roundtrip_index i hd.1 hd.2, by simp [PE.equals]⟩
   | invalid => simp [serializePE] at h
 
 /-- the codec laws hold at every printable element with sorted key fields -/
-theorem lawAt_std (pe : PE) (hp : pe.printable = true) (hk : pe.keySorted = true) : LawAt stdCodec pe := by
+theorem lawAt_std (pe : PE) (hp : pe.printable = true) (hk : pe.keySorted = true) (hd : pe.inGoDomain = true) :
+    LawAt stdCodec pe := by
   unfold PE.printable at hp
   rw [Option.isSome_iff_exists] at hp
   obtain ⟨s, hs⟩ := hp
-  exact ⟨s, hs, fun e => serializePE_ne_dot pe (e ▸ hs), std_roundtrip_of_keySorted pe s hs hk⟩
+  exact ⟨s, hs, fun e => serializePE_ne_dot pe (e ▸ hs), std_roundtrip_of_keySorted pe s hs hk hd⟩
 
 /-! ### tries -/
 
@@ -349,10 +493,25 @@ theorem toJSON_eq (s : SetTrie) : toJSON s = toJSONWith stdCodec s := rfl
 
 /-- serialising a set with the concrete codec and parsing it back yields an equal set, for every
 well-formed set all of whose path elements are printable and have sorted key fields -/
+theorem allPE_and (p q : PE → Bool) :
+    ∀ t : SetTrie, SetTrie.allPE p t = true → SetTrie.allPE q t = true →
+      SetTrie.allPE (fun pe => p pe && q pe) t = true := by
+  intro t
+  induction t using SetTrie.ind with
+  | h m c ih =>
+    intro h1 h2
+    simp only [SetTrie.allPE, Bool.and_eq_true, List.all_eq_true, allPEChildren_iff] at h1 h2 ⊢
+    exact ⟨fun pe hpe => ⟨h1.1 pe hpe, h2.1 pe hpe⟩,
+      fun x hx => ⟨⟨(h1.2 x hx).1, (h2.2 x hx).1⟩, ih x hx (h1.2 x hx).2 (h2.2 x hx).2⟩⟩
+
 theorem fromJSON_toJSON_std (s : SetTrie) (hs : s.wf = true) (hp : s.allPrintable = true)
-    (hk : s.allKeysSorted = true) :
+    (hk : s.allKeysSorted = true) (hd : s.allInGoDomain = true) :
     ∃ j, toJSON s = some j ∧ ∃ s', fromJSON j = .ok s' ∧ SetTrie.equals s' s = true :=
-  fromJSON_toJSON_on stdCodec s hs (allPE_combine _ _ lawAt_std s hp hk)
+  fromJSON_toJSON_on stdCodec s hs
+    (allPE_combine PE.printable (fun pe => pe.keySorted && pe.inGoDomain)
+      (fun pe h1 h2 => by
+        simp only [Bool.and_eq_true] at h2
+        exact lawAt_std pe h1 h2.1 h2.2) s hp (allPE_and _ _ s hk hd))
 
 open SetTrie in
 /-- what the concrete codec does on a set with a single member -/
@@ -374,13 +533,36 @@ theorem singleton_std (pe pe' : PE) (key : String) (henc : serializePE pe = some
     simp
 
 open SetTrie in
+/-- a set with a single member whose printed key the reader rejects (or cannot model) is not read back -/
+theorem singleton_std_not_ok (pe : PE) (key : String) (henc : serializePE pe = some key)
+    (hdec : deserializePE key = .error .bad ∨ deserializePE key = .error .unsupported) :
+    ¬ ∃ j, toJSON (node [pe] []) = some j ∧ ∃ s', fromJSON j = .ok s' ∧ SetTrie.equals s' (node [pe] []) = true := by
+  have hd : key ≠ "." := fun e => serializePE_ne_dot pe (e ▸ henc)
+  have h1 : emitMergeWith stdCodec [pe] [] = some [(key, J.obj [])] := by
+    rw [emitMergeWith, emitMergeWith]
+    simp [stdCodec, henc]
+  have h2 : toJSON (node [pe] []) = some (J.obj [(key, J.obj [])]) := by
+    simp [toJSON, toJSONWith, emitWith_node, h1]
+  rintro ⟨j, hj, s', hs', _⟩
+  rw [h2] at hj
+  cases hj
+  rw [fromJSON_eq, fromJSONWith, readV1With] at hs'
+  rcases hdec with hdec | hdec
+  · rw [readMembers_bad stdCodec (J.obj []) [] _ hd (by simpa [stdCodec] using hdec), readMembers_nil] at hs'
+    simp at hs'
+  · rw [readMembers_unsupported stdCodec (J.obj []) [] _ hd (by simpa [stdCodec] using hdec),
+      readMembers_nil] at hs'
+    simp at hs'
+
+open SetTrie in
 /-- a set whose only member is an associative-list key survives the concrete round trip only if the
 key's fields are in sorted order -/
-theorem sorted_of_read_emit_key_singleton (k : FieldList) (s : String) (h : jsonFields k = some s)
+theorem sorted_of_read_emit_key_singleton (k : FieldList) (s : String) (h : jsonKeyFields k = some s)
+    (hdom : Value.inGoDomainFields k = true)
     (hex : ∃ j, toJSON (node [.key k] []) = some j ∧
       ∃ s', fromJSON j = .ok s' ∧ SetTrie.equals s' (node [.key k] []) = true) :
     FieldList.equals (FieldList.sort k) k = true := by
-  obtain ⟨m, hm, _⟩ := deserializePE_key k s h
+  obtain ⟨m, hm, _⟩ := deserializePE_key k s h hdom
   have henc : serializePE (.key k) = some ("k:{" ++ s ++ "}") := by simp [serializePE, h]
   obtain ⟨h1, h2⟩ := singleton_std (.key k) _ _ henc hm
   obtain ⟨j, hj, s', hs', he⟩ := hex
@@ -388,7 +570,7 @@ theorem sorted_of_read_emit_key_singleton (k : FieldList) (s : String) (h : json
   cases hj
   rw [h2] at hs'
   cases hs'
-  refine (std_roundtrip_key_iff k s h).1 ⟨_, hm, ?_⟩
+  refine (std_roundtrip_key_iff k s h hdom).1 ⟨_, hm, ?_⟩
   simpa [SetTrie.equals, peEquals, equalsChildren] using he
 
 end Ser
